@@ -25,7 +25,7 @@ def mapSpec (s : Nat) (i : Int) : Nat :=
     `tmo` = the state's timeout (seconds, 0 = none). -/
 def holdsC14Step (tmo : Nat) (pre post : Fsm) (i : Int) (now : Nat) : Bool :=
   decide (post.lastTs = now) &&
-  (if tmo = 0 ∨ now - pre.lastTs ≤ tmo then decide (post.state = mapSpec pre.state i)
+  (if tmo = 0 ∨ diff64 now pre.lastTs ≤ tmo then decide (post.state = mapSpec pre.state i)
    else decide (post.state = 0) || (decide (i = 0) && decide (post.state = 1)))
 
 /-- timeouts: idle has none, the active states have a non-zero one of at most 30 s -/
@@ -59,7 +59,7 @@ def isSessEvent (e : Int) : Bool := decide (e = -1) || (decide (0 ≤ e) && deci
 /-- one observed call; inputs outside the session-event alphabet are unconstrained -/
 def holdsC15Step (tmo : Nat) (pre post : Fsm) (e : Int) (now : Nat) : Bool :=
   if !isSessEvent e then true else
-  if tmo = 0 ∨ now - pre.lastTs ≤ tmo then decide (post.state = sessSpec pre.state e)
+  if tmo = 0 ∨ diff64 now pre.lastTs ≤ tmo then decide (post.state = sessSpec pre.state e)
   else decide (post.state = 1)    -- expiry returns every state to Nascent; the input that found the session expired is not acted on
 
 /-! ## C13 — RepeatBand (documented constants NMAX = 10000, ALPHA = 45, BETA = 2). -/
